@@ -15,8 +15,17 @@ NOTES = """Interpretation choices (read generously, see BUILDING.md rule 1):
 * Markdown table and model table may trim empty leading/trailing rows and columns: one non-negative
   translation per sheet is allowed, the relative positions of all cells must be kept, nothing else may
   be shown. The delimiter row of the Markdown table is not a data row.
-* merged regions: covered positions must be blank in every view; spans (RowSpan/ColSpan) are not asserted.
-  Covered positions never carry a value in the generated files (only empty <c/> elements).
+* merged regions: covered positions must be blank in every view (grid, Tables(), text, Markdown, model) wherever the
+  region lies relative to the populated grid and WHETHER OR NOT the covered cells carry (stale) values in the file:
+  CT_Worksheet does not forbid a value in a covered cell and writers that merge without clearing produce such files;
+  a spreadsheet shows only the top-left value. In the grid 'blank' means Cell.Value == "" (the field is documented as
+  "the cell's display value"); RawValue and the IsMerged flag are free to keep what the file said.
+* merge metadata is asserted as far as the API documents it: every cell of a declared region that lies inside the
+  grid is flagged IsMerged, the top-left cell IsMergeRoot, nothing else is flagged; MergeRows x MergeCols of the root and
+  RowSpan x ColSpan of the model cell at the root's place equal the region's size or that size clipped to the extent of
+  the grid / table (both accepted); regions whose top-left cell lies outside the grid / the trimmed table are not
+  asserted. Tables() is read as header row + data rows with the same free translation as the Markdown table.
+* ODT/DOCX/PPTX table spans are not part of C17's statement (spreadsheets only) and are not checked here.
 * generated files are valid ECMA-376: <row> without r (optional attribute) but cells with full
   references; rows and cells in any order (the schema does not order them); inline strings with
   rich-text runs (CT_Rst allows r in <is>); cells without r are NOT generated (no reference to honour).
@@ -27,12 +36,15 @@ EVIDENCE = dict(
     rule="(1) codec: every column A..ZZ x rows {1,9,10,200} in both directions (TLC proves the bijection on SheetRef.tla, "
          "refutes the positional variant) replayed on ColumnToIndex/IndexToColumn/CellRef/ParseCellRef/ParseRangeRef; "
          "(2) every reachable state of Sheet.tla (one state = one workbook file: cells in file order, merges, <= 2 sheets, "
-         "10 cell kinds, offsets A1 / Y8, row-r and shared-string layouts) plus -simulate workbooks in a 4x4 window up to ZZ200 "
-         "is rendered by an independent writer and read through xlsx.Open, Text(), ToMarkdown(), Document(); "
+         "10 cell kinds, offsets A1 / Y8, row-r and shared-string layouts), every SET of populated cells of a 3x3 window x every rectangle "
+         "as merged region (roots in first/interior/last populated row and column, regions beyond the extent, stale values in covered cells; "
+         "thorough: ordered pairs of regions and a 3x4 window) plus -simulate workbooks in a 4x4 window up to ZZ200 "
+         "is rendered by an independent writer and read through xlsx.Open (cells, merge flags, Tables()), Text(), ToMarkdown(), Document() "
+         "(cells and spans); TLC also refutes the reader that ignores regions anchored on the last populated row/column; "
          "(3) random larger workbooks recorded from the real code are validated by SheetTrace.tla. Non-trivial = workbook with "
          "a multi-letter column, a merged region or out-of-order rows/cells (codec: multi-letter columns); distinct by case text.",
     assumptions=["number formats / styles / dates are not generated (General format, integers only)",
-                 "cells without an r attribute and values inside covered positions of a merged region are not generated",
+                 "cells without an r attribute are not generated; overlapping merged regions are not generated",
                  "TLC 1.8.0 + CommunityModules (Json) and the harness writer ooxmlw (audited per run with python zipfile/xml.etree) are trusted"],
 )
 
@@ -109,14 +121,26 @@ def run(ctx):
     ctx.tlc("SheetRefMC", "SheetRef_mc_impl.cfg", expect_violation=True)
     ctx.tlc("SheetMC", "Sheet_mc_quick.cfg" if q else "Sheet_mc_thorough.cfg", timeout=3000)
     ctx.tlc("SheetMC", "Sheet_mc_impl.cfg", expect_violation=True)
+    # merged regions against the populated grid: every set of populated cells of a 3x3 window x every
+    # rectangle (thorough: and every ordered pair of disjoint rectangles) as merged region
+    ctx.tlc("SheetMC", "Sheet_mc_merge_quick.cfg" if q else "Sheet_mc_merge.cfg", timeout=3000)
+    ctx.tlc("SheetMC", "Sheet_mc_impl_merge.cfg", expect_violation=True)
     ctx.exhaustive = True
     # ---- R2: cases ------------------------------------------------------------
     gen = ctx.tlc("SheetMC", "Sheet_gen_quick.cfg" if q else "Sheet_gen_thorough.cfg", workers=1 if q else 8,
                   collect=True, count=False, timeout=3000)
     sim = ctx.tlc("SheetMC", "Sheet_sim.cfg", workers=1, simulate=250 if q else 8000, depth=12,
                   collect=True, count=False, timeout=3000)
+    mg = ctx.tlc("SheetMC", "Sheet_gen_merge_quick.cfg" if q else "Sheet_gen_merge_thorough.cfg", workers=8,
+                 collect=True, count=False, timeout=3000)
+    if not q:
+        tall = ctx.tlc("SheetMC", "Sheet_gen_merge_tall.cfg", workers=8, collect=True, count=False, timeout=3000)
+        mg["cases"] += tall["cases"]
+    if not mg["cases"]:
+        raise vlib.MachineryError("TLC emitted no merge-position cases")
+    ctx.extra["workbooks_merge_positions"] = len(mg["cases"])
     seen, cases = set(), []
-    for c in gen["cases"] + sim["cases"]:
+    for c in gen["cases"] + mg["cases"] + sim["cases"]:
         k = vlib.json.dumps(c, sort_keys=True)
         if k not in seen:
             seen.add(k)
@@ -125,11 +149,12 @@ def run(ctx):
         raise vlib.MachineryError("TLC emitted no cases")
     ctx.extra["codec_cases"] = len(codec["cases"])
     ctx.extra["workbooks_exhaustive"] = len(gen["cases"])
-    ctx.extra["workbooks_simulated"] = len(cases) - len(gen["cases"])
+    ctx.extra["workbooks_simulated"] = len(cases) - len(gen["cases"]) - len(mg["cases"])
     # writer audit on a few of them (first, middle, a simulated one)
-    _selftest(ctx, [cases[0], cases[len(gen["cases"]) // 2], cases[len(gen["cases"]) - 1], cases[-1], cases[-2]])
+    _selftest(ctx, [cases[0], cases[len(gen["cases"]) // 2], cases[len(gen["cases"]) - 1], cases[-1], cases[-2],
+                    mg["cases"][len(mg["cases"]) // 2], mg["cases"][-1]])
     ctx.sample({"codec": codec["cases"][len(codec["cases"]) // 3]})
-    big = max(cases[len(gen["cases"]):], key=lambda c: c["ncells"])
+    big = max(cases[len(gen["cases"]) + len(mg["cases"]):], key=lambda c: c["ncells"])
     ctx.sample({"workbook": {"off": big["off"], "rowR": big["rowR"], "sheets": [
         {"rows": [[(cl["ref"], cl["t"]) for cl in r["cells"]] for r in s["rows"]], "merges": [m["rect"] for m in s["merges"]],
          "expected_cells": s["cells"]} for s in big["sheets"]]}})
